@@ -195,6 +195,7 @@ fn worker_sweeps(ctx: &Ctx) -> Vec<sweep::Sweep> {
         "C04" => c04::sweeps(ctx),
         "C05" => c05::sweeps(ctx),
         "C12" => c12::sweeps(ctx),
+        "C13" => c13::sweeps(ctx),
         "C16" => c16::sweeps(ctx),
         _ => {
             eprintln!("MACHINERY: no worker sweeps for {}", ctx.property);
